@@ -106,10 +106,10 @@ Fixpoint rejoin (carry : bool) (chunks : list str) : list str :=
 Definition write_rj {S : Type} (step : S -> line -> S * line) (chunks : list str) (st : S) : S * str :=
   write step (rejoin false chunks) st.
 
-(* _copy_header_using_line_pps: Python's text-mode line iteration (universal newlines:
-   \n, \r\n and lone \r all arrive as a line ending in "\n"; the last line may have no
-   terminator) followed by the tuple construction of the source.  `lines` is what
-   `for resource_line in resource_file` yields. *)
+(* _copy_header_using_line_pps: the resource is opened with newline="\n" (fix b0be4ff): iteration yields the text cut after
+   every LF, untranslated (a CR before the LF is part of the yielded line, a lone CR does not end a line; the last line may
+   have no terminator), followed by the tuple construction of the source.  `lines` is what
+   `for resource_line in resource_file` yields (`py_lines` in LinePPRejoinThm.v). *)
 Section CopyHeader.
   Variable S : Type.
   Variable step : S -> line -> S * line.
